@@ -2,7 +2,9 @@
 import re
 import z3
 
-from mirsym.api import Ob, guard, StatePath, Opaque, Agg, Ref, vname
+from mirsym.api import Ob, guard, StatePath, Opaque, Agg, Ref, vname, ev_is, uid_of
+from mirsym import codecmodel as CM
+from mirsym import contracts as C
 from mirsym.engine import State
 from mirsym.values import StrV
 from mirsym import models as M
@@ -171,6 +173,71 @@ def o3(tier):
     return ob.done(cases=len(paths))
 
 
+@guard
+def o4(tier):
+    """the receiver reads the imeta fields verbatim: the element is split as it is, nothing is trimmed or folded before or after the split"""
+    old = M.SEQ_BOUND[0]
+    M.SEQ_BOUND[0] = 2
+    try:
+        ob = Ob('O4', 'parse_imeta_tag: each tag element is split exactly as received (first space separates key and value; no trimming / case folding before the split) and the value handed to '
+                      'validate_filename / validate_mime_type / hex::decode and stored is the split value itself, so the (hash, MIME, file name) the receiver authenticates are the bytes the sender published',
+                models=CM.codec_models(), loop_bound=12, pure=C.PURE_MLS, max_paths=50000)
+        ob.eng.model_maps = False
+        f = ob.fn(CORE, 'manager::parse_imeta_tag')
+        paths = ob.explore(f, [Opaque('self', '&EncryptedMediaManager<Storage>'), Opaque('tag', '&nostr::Tag')])
+    finally:
+        M.SEQ_BOUND[0] = old
+    VIEW = ('<String as Deref>::deref', 'String::as_str', '<String as AsRef>::as_ref', '<String as Borrow>::borrow')
+    n_split = 0
+    for p in paths:
+        if p.kind == 'panic':
+            continue
+        u = lambda v: uid_of(ob.eng, p.st, v)
+        produced = {u(e.ret): e for e in p.trace if e.ret is not None}
+        for e in p.trace:
+            if not ev_is(e, 'splitn'):
+                continue
+            n_split += 1
+            src = u(e.args[0])
+            chain = []
+            cur = src
+            while cur in produced and len(chain) < 6:
+                chain.append(produced[cur].short)
+                cur = u(produced[cur].args[0]) if produced[cur].args else ''
+            bad = [c for c in chain if c not in VIEW]
+            ob.require(not bad and cur.startswith('iter['), 'O4/imeta-element-altered-before-split',
+                       f'parse_imeta_tag splits {" <- ".join(chain) or src} (<- {cur}) instead of the tag element itself: the element is transformed ({bad}) before key and value are separated, '
+                       'so a file name / MIME type with e.g. trailing whitespace is not what the sender authenticated', p)
+            ob.require(str(u(e.args[1])) == '2' and str(u(e.args[2])) == '32', 'O4/imeta-split-shape', f'splitn({u(e.args[1])}, {u(e.args[2])}) is not splitn(2, \' \')', p)
+        for e in p.trace:
+            if ev_is(e, 'validate_filename', 'validate_mime_type', 'hex::decode', 'decode') and e.args:
+                a = u(e.args[-1] if ev_is(e, 'validate_filename', 'validate_mime_type') else e.args[0])
+                if ev_is(e, 'validate_filename', 'validate_mime_type'):
+                    ob.require(a.startswith('splitn['), f'O4/imeta-value-altered/{e.short.split("::")[-1]}', f'{e.short} is given {a}, not the value part of the split element', p)
+    ob.require(n_split >= 2, 'O4/vacuity', f'splitn events seen: {n_split}')
+    ob.r.bounds = {'tag elements inspected': '<= 2 per path (the loop body is the same for every element)', 'paths': 'all'}
+    return ob.done(cases=len(paths))
+
+
+def o5(tier):
+    """the exporter secrets of ALL past epochs survive a rollback (a file shared long ago stays decryptable)"""
+    from props import C09
+    r = C09.sqlite_columns(tier)
+    r.oid = 'O5'
+    r.title = 'SQLite (shared with C09-O2): the snapshot reads every exporter-secret row of the group (no LIMIT / ORDER truncation) and the rollback writes all of them back, so media of any earlier epoch stays decryptable after a commit race'
+    return r
+
 def run(tier, seed, only=None):
-    obs = [('O1', o1), ('O2', o2), ('O3', o3)]
-    return [f(tier) for k, f in obs if not only or k in only]
+    obs = [('O1', o1), ('O2', o2), ('O3', o3), ('O4', o4), ('O5', o5)]
+    out = []
+    for k, f in obs:
+        if only and k not in only:
+            continue
+        try:
+            out.append(f(tier))
+        except Exception as e:                      # an engine that cannot read the tree is an inconclusive obligation, not a crash of the whole check
+            from vlib.common import Result
+            rr = Result(k, 'sqlsym' if type(e).__name__ == 'SqlError' else 'mirsym', f.__doc__ or f.__name__)
+            rr.broken(f'{type(e).__name__}: {e}')
+            out.append(rr)
+    return out
